@@ -19,6 +19,7 @@ RULE = (
     "by the library (parse_* functions and BeaconConfig(block).settings) and compared with the step list the "
     "encoder was given. BeaconGate: all 2^23 flag vectors (thorough) / all vectors within Hamming distance 2 of the "
     "group unions (quick). non-trivial = the encoding carries at least one step / flag / byte"
+    '. Added: arguments ending in NUL bytes; every decoded list is modified by the caller and decoded again. '
 )
 ASSUMPTIONS = [
     "opcode 14 (STRREP) and unknown opcodes are not valid in HTTP transform programs and are excluded",
